@@ -66,8 +66,7 @@ def main():
         rc, out = sh("git apply %s" % os.path.join(cand, "patch.diff"), cwd=wt)
         if rc != 0:
             print("REJECT: patch does not apply\n" + out); return 1
-        rc, out = sh("go build ./... && go vet ./... >/dev/null 2>&1; go test -vet=off -count=1 ./... 2>&1 | grep -v '^ok\\|no test files' | tail -30", cwd=wt)
-        rc2, out2 = sh("go build ./... && go test -vet=off -count=1 ./... >/dev/null 2>&1", cwd=wt)
+        rc2, out = sh("go build ./... && go test -vet=off -count=1 ./... > /var/tmp/seedv-suite-%d.log 2>&1; rc=$?; grep -v '^ok\\|no test files' /var/tmp/seedv-suite-%d.log | tail -30; rm -f /var/tmp/seedv-suite-%d.log; exit $rc" % ((os.getpid(),)*3), cwd=wt, timeout=3000)
         res["suite_with_patch_rc"] = rc2
         if rc2 != 0:
             print("REJECT: existing suite fails (or build breaks) with the patch\n" + out); return 1
